@@ -31,6 +31,11 @@ struct Script {
     initial: bool,
     /// the process has a second thread
     threads: bool,
+    /// an unrelated action is registered first and unregistered before the deliveries (order of the rest must stay)
+    other_removed: bool,
+    /// an action between shutdown and arming flag re-raises the signal once: that second signal must be held back
+    /// until the first delivery has returned (and then terminate)
+    reraise_between: bool,
     steps: Vec<Step>,
 }
 
@@ -43,11 +48,18 @@ extern "C" fn atexit_marker() {
 /// Model: returns (index of the Deliver step at which the process ends, or None).
 fn model(sc: &Script) -> Option<usize> {
     let mut flag = sc.initial;
+    let reraised = false;
     for (i, st) in sc.steps.iter().enumerate() {
         match st {
             Step::Set(b) => flag = *b,
             Step::Deliver => {
                 // actions in registration order
+                if sc.reraise_between && sc.arm_by_signal && sc.shutdown_first && !reraised {
+                    // first delivery arms the flag (or dies at once); the signal re-raised from inside it is delivered
+                    // after it returned and then finds the condition true
+                    let _ = flag;
+                    return Some(i);
+                }
                 if sc.arm_by_signal {
                     if sc.shutdown_first {
                         if flag {
@@ -99,8 +111,21 @@ fn run_child(sc: &Script, fd: i32) -> i32 {
             signal_hook::flag::register_conditional_default(sc.sig, cond).expect("register default");
         }
     };
+    let other = if sc.other_removed { Some(unsafe { signal_hook_registry::register(sc.sig, || ()) }.expect("other")) } else { None };
     if sc.shutdown_first {
         reg_shutdown(cond.clone());
+    }
+    if sc.reraise_between && sc.arm_by_signal && sc.shutdown_first {
+        let once = Arc::new(AtomicBool::new(false));
+        let sg = sc.sig;
+        unsafe {
+            signal_hook_registry::register(sg, move || {
+                if !once.swap(true, Ordering::SeqCst) {
+                    libc::raise(sg);
+                }
+            })
+            .expect("reraise");
+        }
     }
     if sc.arm_by_signal {
         signal_hook::flag::register(sc.sig, cond.clone()).expect("register flag");
@@ -114,6 +139,9 @@ fn run_child(sc: &Script, fd: i32) -> i32 {
     let late_fd = fd;
     unsafe {
         signal_hook_registry::register(sc.sig, move || fork::wr(late_fd, "LATE\n")).expect("late");
+    }
+    if let Some(id) = other {
+        signal_hook_registry::unregister(id);
     }
     for (i, st) in sc.steps.iter().enumerate() {
         fork::wr(fd, &format!("STEP {}\n", i));
@@ -159,7 +187,7 @@ pub fn main(args: &[String]) -> i32 {
             for bits in 0..(1u32 << len) {
                 let steps: Vec<Step> = (0..len).map(|i| if bits >> i & 1 == 1 { Step::Deliver } else { Step::Set(false) }).collect();
                 let sig = shutdown_sigs[((bits + len) as usize) % 3];
-                scripts.push(Script { sig, status: ((bits * 37 + len) % 256) as c_int, kind: 0, shutdown_first: order, arm_by_signal: true, initial: false, threads: bits % 2 == 1, steps });
+                scripts.push(Script { sig, status: ((bits * 37 + len) % 256) as c_int, kind: 0, shutdown_first: order, arm_by_signal: true, initial: false, threads: bits % 2 == 1, other_removed: bits % 3 == 1, reraise_between: false, steps });
             }
         }
     }
@@ -182,6 +210,8 @@ pub fn main(args: &[String]) -> i32 {
             arm_by_signal: kind == 0 && rng.chance(1, 2),
             initial: rng.chance(1, 4),
             threads: rng.chance(1, 2),
+            other_removed: rng.chance(1, 3),
+            reraise_between: kind == 0 && rng.chance(1, 6),
             steps,
         });
     }
@@ -230,7 +260,7 @@ pub fn main(args: &[String]) -> i32 {
                 // the "late" action (registered after the shutdown) ran in the terminating delivery?
                 let lates = res.out.matches("LATE").count();
                 let delivers_before = sc.steps[..k].iter().filter(|s| matches!(s, Step::Deliver)).count();
-                if lates > delivers_before {
+                if lates > delivers_before + sc.reraise_between as usize {
                     bad.push(("shutdown-not-immediate".into(), format!("an action registered after the shutdown ran in the terminating delivery ({} runs for {} earlier deliveries) || {}", lates, delivers_before, label)));
                 }
             }
@@ -241,7 +271,7 @@ pub fn main(args: &[String]) -> i32 {
                 }
             }
         }
-        keys.insert(format!("{}:{}:{}:{}:{}:{:?}", sc.kind, sc.sig, sc.shutdown_first, sc.arm_by_signal, sc.threads, want_end.map(|k| sc.steps[..=k].iter().filter(|s| matches!(s, Step::Deliver)).count())));
+        keys.insert(format!("{}:{}:{}:{}:{}:{}:{}:{:?}", sc.kind, sc.sig, sc.shutdown_first, sc.arm_by_signal, sc.threads, sc.other_removed, sc.reraise_between, want_end.map(|k| sc.steps[..=k].iter().filter(|s| matches!(s, Step::Deliver)).count())));
         if samples.len() < 6 && idx % 97 == 3 {
             samples.push(J::s(&format!("{} -> {:?} after step {:?} (model: ends at {:?})", label, res.end, last_step, want_end)));
         }
